@@ -55,7 +55,7 @@ def one_case(ctx, rng, wd, K=None, force=None):
     K = K or int(rng.choice([1, 2, 2, 3, 3, 4, 4, 5, 5, 6]))
     frames = int(rng.choice([1, 1, 2, 4]))
     retype = bool(frames > 1 and rng.random() < 0.35)
-    snaps, inf, cell = gc.static_system(rng, K=K, frames=frames, nmin=max(2, K), nmax=70 if not ctx.thorough else 110, retype=retype, vary_tilt=True)
+    snaps, inf, cell = gc.static_system(rng, K=K, frames=frames, nmin=max(2, K), nmax=70 if not ctx.thorough else 110, retype=retype, vary_tilt=True, big="xl" if ctx.thorough else True)
     d = inf["d"]
     ppp = gc.random_mask(rng, d)
     Lmin = float(np.min(np.diag(cell["H"])))
